@@ -450,6 +450,39 @@ def _discount_matrix(ctx: Ctx, tdr):
     class Undecided(Exception):
         pass
 
+    # The returns as a table: the function interpreted over exact values (sa/interp.py + sa/teval.py; nothing is run) for a 4-step,
+    # 2-sequence reward matrix and discount factors below, at and above one and negative, compared with the recursion
+    # R_t = r_t + gamma * R_(t+1), R_T = 0. None = outside the interpreted fragment (then the symbolic rule below must decide).
+    from fractions import Fraction as Fr
+    import numpy as np
+    from sa.interp import Interp
+    from sa.inteval import NotEvaluable
+    from sa.teval import frac_array
+    table = {}
+    for bf in (True, False):
+        verdict = "ok"
+        try:
+            for gamma in (Fr(1, 2), Fr(1), Fr(2), Fr(-3, 2)):
+                r_tn = frac_array([[Fr(1), Fr(-2)], [Fr(3), Fr(5, 2)], [Fr(-7), Fr(11)], [Fr(13), Fr(1, 3)]])  # (T, N)
+                want = np.empty_like(r_tn)
+                nxt = np.array([Fr(0), Fr(0)], dtype=object)
+                for t_ in range(r_tn.shape[0] - 1, -1, -1):
+                    nxt = want[t_] = r_tn[t_] + gamma * nxt
+                env = {a.arg: None for a in tdr.node.args.args}
+                env.update({rname: r_tn.T if bf else r_tn, gname: gamma, "batch_first": bf})
+                kind, got = Interp(tensors=True).run(tdr.node, env)
+                if kind != "return" or not np.array_equal(np.asarray(got, dtype=object), want.T if bf else want):
+                    verdict = (gamma, kind, got, want.T if bf else want)
+                    break
+        except NotEvaluable:
+            verdict = None
+        table[bf] = verdict
+        if verdict is not None:
+            bad_ = verdict != "ok"
+            col.ob("G12", "S3", f"_rl.py::time_distributed_return::returns-table[batch_first={bf}]", not bad_,
+                   (f"with gamma = {verdict[0]} and batch_first={bf} the function computes {str(verdict[2].tolist() if hasattr(verdict[2], 'tolist') else verdict[2])[:80]} "
+                    f"for the reference rewards; the recursion R_t = r_t + gamma * R_(t+1), R_T = 0 gives {str(verdict[3].tolist())[:80]}") if bad_ else "",
+                   "_rl.py", tdr.line, sample=dict(gammas=4))
     for bf in (True, False):
         # (also specialised on a non-zero gamma: the gamma == 0 shortcut, however it is written, is the previous rule's business)
         node, folded = specialise(tdr.node, {"batch_first": bf, gname: 0.5}, inline_tests=True)
@@ -579,7 +612,8 @@ def _discount_matrix(ctx: Ctx, tdr):
             if D[0] != "mat":
                 raise Undecided("discount operand is not a matrix")
         except Undecided as e_:
-            col.undecided(f"C18: {key}: {e_}")
+            if table.get(bf) is None:
+                col.undecided(f"C18: {key}: {e_}")  # (neither the value table nor the symbolic matrix decides this layout)
             continue
         _, ci, cj, keep, axis = D
         # matmul(r, D) contracts r's last axis with D's rows; matmul(D, r) contracts D's columns with r's first axis
